@@ -239,6 +239,19 @@ Proof.
     assumption.
 Qed.
 
+(* every default path of the table is spelled canonically: it is the printed form of the indices
+   it parses to (so string and index list determine each other, cf. Lemmas/CoinsPath.v) *)
+Definition def_path_canonical (c : coin) : bool :=
+  match c_body c with
+  | CBip b => match parse_path (b_def_path b) with
+              | inl (false, p) => list_eqb (show_path false p) (b_def_path b)
+              | _ => false
+              end
+  | _ => true
+  end.
+Lemma def_paths_canonical : forallb def_path_canonical all_coins = true.
+Proof. vm_compute. reflexivity. Qed.
+
 (* ------------------------------------------------------------------ coherence of the tables *)
 
 Definition off_entry (t : list N * list N * pval * pval) : list N := fst (fst (fst t)).
@@ -396,6 +409,15 @@ Proof. vm_compute. reflexivity. Qed.
 Lemma cconf_aliases_ok :
   forallb (fun ab => match find_cc (snd ab) coins_conf_table, find_cc (fst ab) coins_conf_table with
                      | Some _, None => true | _, _ => false end) cconf_aliases = true.
+Proof. vm_compute. reflexivity. Qed.
+
+(* <Conf>.A = <Conf>.B compatibility aliases of the configuration containers: B is the attribute
+   some member of that family resolves to, A is never used as a resolution target itself (the
+   generator resolves an alias to its definition, and checks `A is B` on the live objects) *)
+Definition conf_attr_alias_ok (t : family * list N * list N) : bool :=
+  existsb (fun c => family_eqb (c_family c) (fst (fst t)) && list_eqb (c_conf_attr c) (snd t)) all_coins &&
+  negb (existsb (fun c => family_eqb (c_family c) (fst (fst t)) && list_eqb (c_conf_attr c) (snd (fst t))) all_coins).
+Lemma conf_attr_aliases_ok : forallb conf_attr_alias_ok conf_attr_aliases = true.
 Proof. vm_compute. reflexivity. Qed.
 
 (* ------------------------------------------------------------------ registry *)
